@@ -554,7 +554,6 @@ func ruleC02_5(c *Ctx) {
 			n++
 			ko := org(mu.Key)
 			okKey := ko == "in_toto.Metadata.Sigs(in_toto.LoadMetadata("+org(lm.Common().Args[0])+")#0)[*].KeyID"
-			c.check(okKey && c.okCallAt(lm, mu.Block()), R, fn, "link stored under one of its own signatures' key id", mu.Pos(), ko, "the map key is "+short(ko))
 			// prefix selection
 			okPre := false
 			for _, hp := range callsIn(f, "strings.HasPrefix") {
@@ -569,6 +568,44 @@ func ruleC02_5(c *Ctx) {
 					}
 				}
 			}
+			if !okPre || !okKey {
+				// sigs[i].KeyID with i = slices.IndexFunc(sigs, func(s) bool { return strings.HasPrefix(s.KeyID, short) }), i >= 0
+				kv := resolve(mu.Key, mu)
+				var elem ssa.Value
+				switch x := kv.(type) {
+				case *ssa.Field:
+					if fieldName(x.X.Type(), x.Field) == "KeyID" {
+						elem = x.X
+					}
+				case *ssa.UnOp:
+					if fa, isFA := x.X.(*ssa.FieldAddr); isFA && fieldName(fa.X.Type(), fa.Field) == "KeyID" {
+						elem = fa.X
+					}
+				}
+				if elem != nil {
+					if list, pred, bind, okE := c.indexFuncElem(elem, mu.Block()); okE && org(list) == "in_toto.Metadata.Sigs(in_toto.LoadMetadata("+org(lm.Common().Args[0])+")#0)" {
+						sel := len(returnsOf(pred)) > 0
+						for _, pr := range returnsOf(pred) {
+							hp, isCall := pr.Results[0].(*ssa.Call)
+							if !isCall || calleeName(hp) != "strings.HasPrefix" || !fieldOfParam(hp.Call.Args[0], pred, "KeyID") {
+								sel = false
+								continue
+							}
+							fromName := derives(outerValueOf(hp.Call.Args[1], pred, bind), func(v ssa.Value) bool {
+								k, ok := v.(*ssa.Call)
+								return ok && calleeName(k) == "path/filepath.Base" && resolve(k.Call.Args[0], k) == resolve(lm.Common().Args[0], lm)
+							}, true)
+							if !fromName {
+								sel = false
+							}
+						}
+						if sel && c.okCallAt(lm, mu.Block()) {
+							okPre, okKey = true, true
+						}
+					}
+				}
+			}
+			c.check(okKey && c.okCallAt(lm, mu.Block()), R, fn, "link stored under one of its own signatures' key id", mu.Pos(), ko, "the map key is "+short(ko))
 			c.check(okPre, R, fn, "signature selected by the file name's key-id prefix", mu.Pos(), "strings.HasPrefix(sig.KeyID, <prefix from filepath.Base(linkPath)>) holds", "the signature whose key id names the link is not selected by the file name's prefix")
 		}
 	}
